@@ -35,6 +35,9 @@ var mgrOps = func() []mgrOp {
 		}
 	}
 	ops = append(ops, mgrOp{method: "PlayerReserve", who: "new"}, mgrOp{method: "PlayersLeave", who: "a"})
+	// not addressed to an existing table: one more table is created in the same manager (and its twin
+	// stand-alone); later calls may address it, and calls addressed to the older tables must still reach them
+	ops = append(ops, mgrOp{method: "CreateTable"})
 	return ops
 }()
 
@@ -147,6 +150,9 @@ func callBoth(m pt.Manager, p *mgrPair, id string, op mgrOp, newID string) (stri
 	case "GetTableEngine":
 		e, err := m.GetTableEngine(id)
 		a = r(err)
+		if err == nil && p != nil && p.mtd.te == nil {
+			p.mtd.te = e // table created during the sequence: this is the first look-up of its engine
+		}
 		if err == nil && p != nil && e != p.mtd.te {
 			a = "returned a different engine"
 		}
@@ -311,6 +317,9 @@ func c17Run(prefix []int, base string, ntables int, depth int, firstTarget int, 
 		}
 		compare := func(where string) *Viol {
 			for _, p := range pairs {
+				if p.mtd.te == nil {
+					continue // created during the sequence: compared at the end
+				}
 				a, b := canonTable(p.mtd.table()), canonTable(p.ttd.table())
 				if a != b {
 					return &Viol{Key: "state-differs", Detail: fmt.Sprintf("%s: table %s held by the manager differs from its stand-alone twin\nmanager: %s\ntwin:    %s", where, p.id, a, b)}
@@ -324,7 +333,7 @@ func c17Run(prefix []int, base string, ntables int, depth int, firstTarget int, 
 		var hist []string
 		nextNew := 0
 		for d := 0; d < depth; d++ {
-			targets := ntables + 1 // + unknown id
+			targets := len(pairs) + 1 // + unknown id
 			var ti, oi int
 			if d == 0 {
 				// the first call's target and a share of the operations are fixed per suite (sharding)
@@ -345,9 +354,36 @@ func c17Run(prefix []int, base string, ntables int, depth int, firstTarget int, 
 			newID := fmt.Sprintf("n%d", nextNew)
 			var p *mgrPair
 			id := "no-such-table"
-			if ti < ntables {
+			if ti < len(pairs) {
 				p = pairs[ti]
 				id = p.id
+			}
+			if op.method == "CreateTable" {
+				if ti != 0 {
+					hist = append(hist, "-")
+					continue // the call has no target: counted once
+				}
+				cfg := defaultCfg(4)
+				cfg.ID = fmt.Sprintf("N%d", d+1)
+				cfg.Deck = "plain"
+				// the engine handle of the new table is looked up only at the end of the sequence, so that
+				// the harness itself places no manager call between the creation and the next call
+				mtd, err := newTDManagedLazy(env, cfg, m)
+				if err != nil {
+					return strings.Join(hist, " "), "result-differs@CreateTable", fmt.Sprintf("Manager.CreateTable(%s) failed: %v\nhistory: %v", cfg.ID, err, hist)
+				}
+				ttd, err := newTD(env, cfg)
+				if err != nil {
+					return "", "harness-create", err.Error()
+				}
+				ttd.be.deckKind = "plain"
+				pairs = append(pairs, &mgrPair{id: cfg.ID, mtd: mtd, ttd: ttd})
+				hist = append(hist, "CreateTable("+cfg.ID+")")
+				env.Settle()
+				if v := compare("after " + strings.Join(hist, " ")); v != nil {
+					return strings.Join(hist, " "), v.Key + "@" + op.method, v.Detail + "\nbase: " + base + "\nhistory: " + strings.Join(hist, " ")
+				}
+				continue
 			}
 			hist = append(hist, fmt.Sprintf("%s.%s", id, op))
 			var a, b string
@@ -393,6 +429,21 @@ func c17Run(prefix []int, base string, ntables int, depth int, firstTarget int, 
 				return strings.Join(hist, " "), v.Key + "@" + op.method, v.Detail + "\nbase: " + base + "\nhistory: " + strings.Join(hist, " ")
 			}
 		}
+		for _, p := range pairs {
+			if p.mtd.te == nil {
+				te, err := m.GetTableEngine(p.id)
+				if p.gone {
+					continue
+				}
+				if err != nil {
+					return strings.Join(hist, " "), "result-differs@GetTableEngine", fmt.Sprintf("table %s created during the sequence is not found at its end: %v\nhistory: %v", p.id, err, hist)
+				}
+				p.mtd.te = te
+			}
+		}
+		if v := compare("end of " + strings.Join(hist, " ")); v != nil {
+			return strings.Join(hist, " "), v.Key + "@end", v.Detail + "\nbase: " + base + "\nhistory: " + strings.Join(hist, " ")
+		}
 		return base + ": " + strings.Join(hist, " "), "", ""
 	})
 }
@@ -400,7 +451,7 @@ func c17Run(prefix []int, base string, ntables int, depth int, firstTarget int, 
 func init() {
 	register(&Check{
 		ID: "C17", Level: "model_checking",
-		Rule:        "a Manager with 2 (quick) / 3 tables next to stand-alone twin engines created with the same settings and driven to the same base state (fresh, players seated, hand at first wager request, standby); every sequence of manager calls (25 methods x {player to act, unknown player, new player}) of length <= depth addressed to each table and to an unknown id, applied to the manager and mirrored on the addressed table's twin only; results must be equal, every manager table must stay equal to its twin (so bystanders are untouched), unknown / closed / released ids must give the table-not-found error",
+		Rule:        "a Manager with 2 (quick) / 3 tables next to stand-alone twin engines created with the same settings and driven to the same base state (fresh, players seated, hand at first wager request, standby); every sequence of manager calls (25 methods x {player to act, unknown player, new player}, plus the creation of a further table) of length <= depth addressed to each table and to an unknown id, applied to the manager and mirrored on the addressed table's twin only; results must be equal, every manager table must stay equal to its twin (so bystanders are untouched), unknown / closed / released ids must give the table-not-found error",
 		Assumptions: []string{"the Manager installs its own native backend whose deck is shuffled by an uncontrolled generator, so cards are excluded from the comparison and base hands are fold-outs", "random seats take the first draw on both sides"},
 		Suites: func(tier string) []*Suite {
 			var ss []*Suite
